@@ -536,6 +536,46 @@ pub fn analyze(sc: &Scenario, r: &RunResult) -> Vec<Violation> {
         }
     }
 
+    // C16: no access to freed bookkeeping memory, no double free (freed blocks are quarantined by the
+    // hook, so addresses are never reused within a run)
+    {
+        use multiqueue2::verif_hooks::Kind;
+        let mut freed: Vec<(usize, usize, String, usize)> = Vec::new(); // (start, len, type, trace index)
+        let mut live: HashMap<usize, usize> = HashMap::new();
+        let mut reported = 0;
+        for (i, rec) in r.trace.iter().enumerate() {
+            match rec {
+                crate::sched::Rec::Note { ev, tid } if ev.kind == Kind::Alloc => {
+                    live.insert(ev.addr, ev.b.max(1));
+                    let _ = tid;
+                }
+                crate::sched::Rec::Note { ev, tid } if ev.kind == Kind::Dealloc => {
+                    if freed.iter().any(|f| f.0 == ev.addr) {
+                        out.push(Violation { prop: "C16", msg: format!("double free of {} at {:#x} by thread {}", ev.what, ev.addr, tid) });
+                    } else if live.remove(&ev.addr).is_none() && reported < 3 {
+                        // freeing something the ledger never saw allocated
+                        reported += 1;
+                        out.push(Violation { prop: "C16", msg: format!("free of unknown block {} at {:#x} by thread {}", ev.what, ev.addr, tid) });
+                    }
+                    freed.push((ev.addr, ev.b.max(1), ev.what.to_string(), i));
+                }
+                crate::sched::Rec::Ev { ev, tid, .. } if ev.addr != 0 => {
+                    if let Some(f) = freed.iter().find(|f| ev.addr >= f.0 && ev.addr < f.0 + f.1) {
+                        if reported < 3 {
+                            reported += 1;
+                            let short = f.2.rsplit("::").next().unwrap_or(&f.2);
+                            out.push(Violation {
+                                prop: "C16",
+                                msg: format!("use after free: thread {} {} at {:#x} inside a freed {} (freed at trace index {}, accessed at {})", tid, crate::sched::kind_str(ev.kind), ev.addr, short, f.3, i),
+                            });
+                        }
+                    }
+                }
+                _ => {}
+            }
+        }
+    }
+
     // C05 ledger at the very end: everything born or cloned is dropped exactly once
     if finished {
         let g = r.reg.lock().unwrap();
